@@ -123,8 +123,31 @@ def oracle(sc, r):
     return None
 
 
+def late_acceptance(ctx):
+    """The second send over a pooled connection (which is probed with NOOP first): the server answers the end of data after 6 s, well within
+    the 20 s timeout - that is an acceptance, and the send reports it."""
+    from smtp import step, run_scenarios, events_R
+    scs = []
+    for fl in ("sync", "tokio"):
+        tx = lambda late: [step("line", b"250 ok\r\n"), step("line", b"250 ok\r\n"), step("line", b"354 go\r\n"), step("data", b"250 queued as %d\r\n" % (2 if late else 1), stall_ms=6000 if late else 0)]
+        script = [step("none", b"220 hi\r\n"), step("line", b"250-srv\r\n250 8BITMIME\r\n")] + tx(False) + [step("line", b"250 alive\r\n")] + tx(True) + [step("line", b"221 bye\r\n")]
+        send = {"op": "tsend", "from": hx(b"a@x.org"), "to": [hx(b"b@y.org")], "msg": hx(b"m\r\n")}
+        scs.append({"id": len(scs), "flavor": fl, "timeout_ms": 20000, "server_cap_ms": 25000, "hang_ms": 40000, "servers": [script],
+                    "ops": [{"op": "transport", "hello": hx(b"c05.test"), "pool": {"max": 1, "min_idle": 0}}, send, {"op": "sleep", "ms": 150}, dict(send), {"op": "tdrop"}]})   # (the tokio pool takes a connection back in a task of its own: give it a moment)
+    bad = []
+    for sc, r in zip(scs, run_scenarios(scs, threads=2)):
+        ctx.count()
+        res = r.get("results") or []
+        if len(res) < 4 or not str(res[1]).startswith("ok,250") or not str(res[3]).startswith("ok,250"):
+            bad.append((sc, "%s: an end-of-data reply that came after 6 s (timeout 20 s) on a re-used pooled connection: results %s" % (sc["flavor"], str(res)[:200])))
+    ctx.cov.setdefault("oracle", {})["late_acceptance_on_a_probed_connection"] = {"cases": len(scs), "failures": len(bad)}
+    if bad:
+        ctx.violation({"kind": "oracle", "entry": "pooled transport, slow acceptance", "what": bad[0][1], "scenario": bad[0][0]})
+
+
 def run(ctx):
     rng = ctx.rng
+    late_acceptance(ctx)
     scs = []
     msgs = [b"hello\r\n", b".\r\n.\r\n", b"x" * 2000]
     for nrcpt in (1, 2, 3):
